@@ -158,6 +158,7 @@ const (
 	RepBig               // every integer as *big.Int
 	RepJSON              // every number as json.Number
 	RepFloat             // integers below 2^53 as float64
+	RepNil               // native numbers; EMPTY arrays and objects as nil slices / nil maps (values of the supported types []any and map[string]any)
 )
 
 // DecVal decodes a tagged value (as decoded by encoding/json) into a gojq value.
@@ -229,12 +230,18 @@ func DecVal(x any, rep Rep) any {
 		}
 		return string(bs)
 	case "arr":
+		if rep == RepNil && len(m["a"].([]any)) == 0 {
+			return []any(nil)
+		}
 		xs := []any{}
 		for _, e := range m["a"].([]any) {
 			xs = append(xs, DecVal(e, rep))
 		}
 		return xs
 	case "obj":
+		if rep == RepNil && len(m["o"].([]any)) == 0 {
+			return map[string]any(nil)
+		}
 		o := map[string]any{}
 		for _, kv := range m["o"].([]any) {
 			p := kv.([]any)
